@@ -70,11 +70,13 @@ Fixpoint tagree (c : tcfg) (s : tstate) (ops : list top) (obs : list seen_t) : b
     match o, ob, r with
     | TAllow i _ _ _ _, OA g b a, TR g' a' _
     | TAllowF i _ _ _ _, OA g b a, TR g' a' _
-    | TAllowC i _ _ _, OA g b a, TR g' a' _ =>
+    | TAllowC i _ _ _, OA g b a, TR g' a' _
+    | TAllowD i _ _ _ _, OA g b a, TR g' a' _ =>
       Bool.eqb g g' && Bool.eqb a a' && Bool.eqb b (alive_of s i)
     | TAllowLate _ _ _ _ _, OA g _ a, TR g' a' _ =>      (* the flag was read earlier: not compared *)
       Bool.eqb g g' && Bool.eqb a a'
-    | TAllow _ _ _ _ _, _, _ | TAllowF _ _ _ _ _, _, _ | TAllowC _ _ _ _, _, _ | TAllowLate _ _ _ _ _, _, _ => false
+    | TAllow _ _ _ _ _, _, _ | TAllowF _ _ _ _ _, _, _ | TAllowC _ _ _ _, _, _ | TAllowLate _ _ _ _ _, _, _
+    | TAllowD _ _ _ _ _, _, _ => false
     | TPing i, OP a, TU | TPong i, OP a, TU => Bool.eqb a (alive_of s' i)
     | _, ON, TU => true
     | _, _, _ => false
@@ -159,6 +161,13 @@ Fixpoint token_walk (rt bs : Z) (b : bucket) (down : bool) (ops : list top) (obs
     (* the caller's context is already cancelled: refused, no fallback *)
     if before then
       let '(ok, acc') := token_walk rt bs b down ops' obs' acc in (negb g && after && ok, acc')
+    else token_walk rt bs b down ops' obs' (acc ++ [(i, (now * 1000000, n, g))])
+  | TAllowD i now n _ ran :: ops', OA g before after :: obs' =>
+    (* the caller's context became done DURING the store call: refused, and the instance must NOT
+       fall back (that is no store failure); if the script had run, the shared bucket was charged *)
+    if before then
+      let b1 := if ran then fst (bucket_take rt bs b (unix_s now) n) else b in
+      let '(ok, acc') := token_walk rt bs b1 down ops' obs' acc in (negb g && after && ok, acc')
     else token_walk rt bs b down ops' obs' (acc ++ [(i, (now * 1000000, n, g))])
   | TPing i :: ops', OP a :: obs' =>
     (* RECOVERY: once the store answers again, every instance is back on the shared bucket
